@@ -344,4 +344,44 @@ theorem linked_pushList {st st' : St} {c head : Nat}
       · exact linked_pushList hn hp hpc ls hnd'.2.1 hcls (fun x hx => hlk x (List.mem_cons_of_mem _ hx))
           ⟨l0, hl0', hl0h⟩ l' hl'
 
+/-! ## `freeSet` -/
+
+theorem notContains_append (S T : List Nat) (x : Nat) :
+    (!(S ++ T).contains x) = (!T.contains x && !S.contains x) := by
+  rw [Bool.eq_iff_iff]; simp [List.mem_append, and_comm]
+
+theorem G.freeSet_nil (g : G) : g.freeSet [] = g := by
+  have : ∀ l : List Nat, l.filter (fun _ => true) = l := fun l => List.filter_eq_self.2 (fun _ _ => rfl)
+  cases g; simp [G.freeSet, this]
+
+theorem G.freeSet_freeSet (g : G) (S T : List Nat) : (g.freeSet S).freeSet T = g.freeSet (S ++ T) := by
+  unfold G.freeSet
+  simp only [List.filter_filter, List.map_map, G.mk.injEq]
+  constructor
+  · congr 1; funext r; rw [notContains_append]
+  · congr 1; funext l; simp only [Function.comp, List.filter_filter]; congr 1; funext x; rw [notContains_append]
+
+theorem G.freeSet_congr (g : G) {S T : List Nat} (h : ∀ x, x ∈ S ↔ x ∈ T) : g.freeSet S = g.freeSet T := by
+  have : ∀ x, S.contains x = T.contains x := by
+    intro x; rw [Bool.eq_iff_iff]; simp [h x]
+  unfold G.freeSet
+  simp only [this]
+
+theorem Linked.suffix {st : St} : ∀ {l1 l2 : List Nat} {p : Nat}, Linked st p (l1 ++ l2) →
+    Linked st (l1.getLast?.getD p) l2
+  | [], _, _, h => h
+  | a :: t, l2, p, h => by
+    have ih := Linked.suffix (l1 := t) (l2 := l2) (p := a) h.2.2
+    rw [List.getLast?_cons]; exact ih
+
+theorem filter_ne_of_nodup {xs ys : List Nat} {b : Nat} (h : (xs ++ b :: ys).Nodup) :
+    (xs ++ b :: ys).filter (· != b) = xs ++ ys := by
+  rw [List.nodup_append] at h
+  have h2 := List.nodup_cons.1 h.2.1
+  have hx : xs.filter (· != b) = xs := by
+    rw [List.filter_eq_self]; intro x hx; simp only [bne_iff_ne, ne_eq]
+    exact h.2.2 x hx b (List.mem_cons_self ..)
+  have hy : ys.filter (· != b) = ys := by
+    rw [List.filter_eq_self]; intro x hxy; simp only [bne_iff_ne, ne_eq]; rintro rfl; exact h2.1 hxy
+  rw [List.filter_append, List.filter_cons, hx, hy]; simp
 end Mmtk.Map32
